@@ -164,7 +164,11 @@ theorem body_itemValue (ts : Syntax) (dict : Tag → Option VR) (bs : Bytes) (po
       (some (some (.ok (.itemValue v))),
         RState.mk ⟨ts, dict, r, pos + len⟩ false false true (⟨true, len, true, base⟩ :: rest) false lh) := by
   unfold RState.nextBody
-  simp [hl, hr]
+  unfold takeN at hr
+  split at hr
+  · injection hr with hr; injection hr with h1 h2
+    simp [hl, h1, h2]
+  · cases hr
 
 /-- at the end of the input, outside any sequence, the iterator ends -/
 theorem body_end (ts : Syntax) (dict : Tag → Option VR) (pos : Nat) :
